@@ -64,6 +64,18 @@ pub fn programs(tier: Tier) -> ProgramSet {
                     }));
                 }
             }
+            // default_with belongs to EnumString: the iterated payload is still Default::default()
+            for i in 0..n {
+                devs.push(dev(format!("v{}(u8) with variant-level default_with", i), &[&format!("kind{}", i)], move |s| {
+                    s.variants[i].kind = Kind::Tuple(vec![FieldTy::U8]);
+                    s.variants[i].default_with = true;
+                    true
+                }));
+                devs.push(dev(format!("v{} {{ x: i32 (default_with), y: String }}", i), &[&format!("kind{}", i)], move |s| {
+                    s.variants[i].kind = Kind::Named(vec![NamedField { name: "x".into(), ty: FieldTy::I32, default_with: true }, NamedField { name: "y".into(), ty: FieldTy::Str, default_with: false }]);
+                    true
+                }));
+            }
             // other strum attributes sharing the variant (and, with Layout::Single, the attribute list) with `disabled`
             for i in 0..n {
                 devs.push(dev(format!("v{}.serialize=\"x\"+message", i), &[&format!("attr{}", i)], move |s| {
@@ -161,6 +173,7 @@ pub fn render(spec: &EnumSpec) -> String {
     let mut o = String::new();
     o.push_str(&render_enum(spec, &["Debug", "strum::EnumIter", "strum::EnumCount"]));
     o.push_str(&format!("type EC = {}{};\n", spec.name, spec.generics_inst()));
+    o.push_str(&render_dw_helpers(spec, "u8"));
     o.push_str(&render_vidx(spec, "EC", "vidx"));
     o.push_str(
         r#"pub fn run(ctx: &mut vf_core::Ctx) {
